@@ -219,4 +219,6 @@ def run(c, prog):
     rule_own(c, prog)
     rule_default(c, prog)
     rule_col(c, prog)
+    from . import C07
+    C07.run_sanitisers(core.Alias(c, "C08"), prog)   # SSTR indices vs chunk order: otherwise an instance shows another instance's SharedString
     c.not_decided += ["`succeeds whenever each instance serializes on its own` for every multiset (value-level type logic)"]
